@@ -76,6 +76,77 @@ def storedOf (s : String) : Option Model.Compare.Stored :=
   | 'U' :: cs => (String.ofList cs).toNat?.bind fun v => if v < 2 ^ 64 then some (.u64 v) else none
   | _ => none
 
+/-! `dom mcmp <value> <value>`: the whole of `basic_json::compare` (JV.Model.Compare.compare) with explicit storage kinds.
+    tokens: n t f E(=json(), empty_object) I<dec>(int64) U<dec>(uint64) d<16 hex>(double bits) e<4 hex>(half bits)
+    s<hex>(string) b<hex>(byte string) [ … ] { k<hex> <value> … }(object storage, members put in key order, first duplicate wins) -/
+open Model.Compare in
+def cvInsert (k : Bytes) (v : CVal) : List (Bytes × CVal) → List (Bytes × CVal)
+  | [] => [(k, v)]
+  | (l, y) :: ms => if keyLt k l then (k, v) :: (l, y) :: ms else if k = l then (l, y) :: ms else (l, y) :: cvInsert k v ms
+
+def hexNat (cs : List Char) : Option Nat :=
+  cs.foldlM (fun acc c => (Wire.hexVal c).map fun d => acc * 16 + d) 0
+
+open Model.Compare in
+mutual
+  def parseCVal : Nat → List String → Option (CVal × List String)
+    | 0, _ => none
+    | _, [] => none
+    | fuel + 1, tok :: rest =>
+      match tok.toList with
+      | ['n'] => some (.null, rest)
+      | ['t'] => some (.bool true, rest)
+      | ['f'] => some (.bool false, rest)
+      | ['E'] => some (.emptyObj, rest)
+      | ['['] => do
+        let (xs, rest') ← parseCElems fuel rest
+        pure (.arr xs, rest')
+      | ['{'] => do
+        let (ms, rest') ← parseCMembers fuel rest
+        pure (.obj (ms.foldl (fun acc kv => cvInsert kv.1 kv.2 acc) []), rest')
+      | 'I' :: cs => (String.ofList cs).toInt?.bind fun v => if -(2 ^ 63 : Int) ≤ v ∧ v < 2 ^ 63 then some (.i64 v, rest) else none
+      | 'U' :: cs => (String.ofList cs).toNat?.bind fun v => if v < 2 ^ 64 then some (.u64 v, rest) else none
+      | 'd' :: cs => (hexNat cs).bind fun v => if cs.length = 16 then some (.dbl v, rest) else none
+      | 'e' :: cs => (hexNat cs).bind fun v => if cs.length = 4 then some (.half v, rest) else none
+      | 's' :: cs => (Wire.bytesOfHexChars cs).map fun b => (.str b, rest)
+      | 'b' :: cs => (Wire.bytesOfHexChars cs).map fun b => (.bstr b, rest)
+      | _ => none
+  def parseCElems : Nat → List String → Option (List CVal × List String)
+    | 0, _ => none
+    | _, [] => none
+    | fuel + 1, tok :: rest =>
+      if tok = "]" then some ([], rest) else do
+        let (x, r1) ← parseCVal fuel (tok :: rest)
+        let (xs, r2) ← parseCElems fuel r1
+        pure (x :: xs, r2)
+  def parseCMembers : Nat → List String → Option (List (Bytes × CVal) × List String)
+    | 0, _ => none
+    | _, [] => none
+    | fuel + 1, tok :: rest =>
+      if tok = "}" then some ([], rest) else
+        match tok.toList with
+        | 'k' :: cs => do
+          let k ← Wire.bytesOfHexChars cs
+          let (x, r1) ← parseCVal fuel rest
+          let (ms, r2) ← parseCMembers fuel r1
+          pure ((k, x) :: ms, r2)
+        | _ => none
+end
+
+open Model.Compare in
+def mcmpLine (toks : List String) : String :=
+  match parseCVal (toks.length + 1) toks with
+  | some (a, r1) =>
+    match parseCVal (r1.length + 1) r1 with
+    | some (b, []) =>
+      let c := Model.Compare.compare a b
+      let rc := Model.Compare.compare b a
+      "ok c" ++ toString c ++ (if opEq a b then " eq" else " ne") ++ (if opNe a b then " NE" else " EQ") ++ (if opLt a b then " lt" else " nl")
+        ++ (if opGt a b then " gt" else " ng") ++ (if opLe a b then " le" else " nle") ++ (if opGe a b then " ge" else " nge")
+        ++ " r" ++ toString rc
+    | _ => "bad-op"
+  | none => "bad-op"
+
 /-- dom seq <j|o> <nslots> op / op / … -/
 def domLine : List String → String
   | "seq" :: kind :: n :: rest =>
@@ -89,9 +160,10 @@ def domLine : List String → String
   | ["icmp", a, b] =>
     match storedOf a, storedOf b with
     | some x, some y =>
-      let c := Model.Compare.compare x y
+      let c := Model.Compare.compareStored x y
       "ok c" ++ toString c ++ (if c = 0 then " eq" else " ne") ++ (if c < 0 then " lt" else " nl")
     | _, _ => "bad-op"
+  | "mcmp" :: rest => mcmpLine rest
   | _ => ""
 
 end Drv
